@@ -65,6 +65,8 @@ var ParseTexts = []string{
 	"CREATE CONTINUOUS QUERY cq ON db RESAMPLE EVERY 1h FOR 2h BEGIN SELECT count(x) INTO t FROM m GROUP BY time(30m) END",
 	"SHOW TAG VALUES ON db FROM /m.*/ WITH KEY IN (a, \"b c\") WHERE x = 'y' LIMIT 3",
 	"SELECT \"a b\"::float + 1.5 * -y AS z INTO db..t FROM (SELECT * FROM m), m2 WHERE s = 'it\\'s' -- c\n",
+	// deep nesting: a limit or a counter that belongs to one parse must not be shared between parses
+	"SELECT " + strings.Repeat("(", 200) + "a + 1" + strings.Repeat(")", 200) + " FROM m WHERE " + strings.Repeat("(", 120) + "b = 2" + strings.Repeat(")", 120),
 }
 
 var SharedTexts = []string{
